@@ -447,6 +447,12 @@ class EvolvableModule(nn.Module, metaclass=ModuleMeta):
                     )
                     param.data[slice_index] = old_param.data[slice_index]
 
+        # Buffers (e.g. BatchNorm running statistics) also determine the function computed
+        old_buffers = dict(old_net.named_buffers())
+        for key, buffer in new_net.named_buffers():
+            if key in old_buffers and old_buffers[key].size() == buffer.size():
+                buffer.data = old_buffers[key].data
+
         return new_net
 
     @staticmethod
